@@ -124,7 +124,9 @@ class Ctx(object):
     # -- budgets -----------------------------------------------------------------------------
     def n(self, quick, thorough):
         """Per-shard share of a case budget given for the whole tier."""
-        total = quick if self.tier == 'quick' else thorough
+        # the thorough budgets written in the checks are about 33x the quick ones; VERIF_THOROUGH_FACTOR (default 0.3, i.e. about 10x
+        # quick, 10-40 minutes per property on 16 idle cores) sizes the registered thorough command; 1.0 gives the full budgets
+        total = quick if self.tier == 'quick' else int(thorough * float(os.environ.get('VERIF_THOROUGH_FACTOR', '0.3')))
         scale = float(os.environ.get('VERIF_SCALE', '1'))
         return max(1, int(total * scale / self.nshards))
 
